@@ -640,8 +640,19 @@ func (sc *SecretManagerClient) generateKeyCertFromExistingFiles(certChainPath, k
 	o := backoff.DefaultOption()
 	o.InitialInterval = sc.configOptions.FileDebounceDuration
 	b := backoff.NewExponentialBackOff(o)
+	// Validate the very bytes that are going to be served: the files may be replaced at any moment, so
+	// checking the files and then reading them again could return a certificate and a key that do not
+	// belong together.
+	var certChain, keyPEM []byte
 	secretValid := func() error {
-		_, err := tls.LoadX509KeyPair(certChainPath, keyPath)
+		var err error
+		if certChain, err = os.ReadFile(certChainPath); err != nil {
+			return err
+		}
+		if keyPEM, err = os.ReadFile(keyPath); err != nil {
+			return err
+		}
+		_, err = tls.X509KeyPair(certChain, keyPEM)
 		return err
 	}
 	ctx, cancel := context.WithTimeout(context.Background(), totalTimeout)
@@ -649,19 +660,11 @@ func (sc *SecretManagerClient) generateKeyCertFromExistingFiles(certChainPath, k
 	if err := b.RetryWithContext(ctx, secretValid); err != nil {
 		return nil, err
 	}
-	return sc.keyCertSecretItem(certChainPath, keyPath, resourceName)
+	return keyCertSecretItem(certChain, keyPEM, resourceName)
 }
 
-func (sc *SecretManagerClient) keyCertSecretItem(cert, key, resource string) (*security.SecretItem, error) {
-	certChain, err := sc.readFileWithTimeout(cert)
-	if err != nil {
-		return nil, err
-	}
-	keyPEM, err := sc.readFileWithTimeout(key)
-	if err != nil {
-		return nil, err
-	}
-
+func keyCertSecretItem(certChain, keyPEM []byte, resource string) (*security.SecretItem, error) {
+	var err error
 	now := time.Now()
 	var certExpireTime time.Time
 	if certExpireTime, err = nodeagentutil.ParseCertAndGetExpiryTimestamp(certChain); err != nil {
